@@ -1,6 +1,8 @@
 import Rare.Proofs.C09C10Std
 import Rare.Proofs.C09Utf8Char
 import Rare.Proofs.C09FuelStd
+import Rare.Proofs.C09Frag
+import Rare.Gen.Tables
 /-!
 Property C09 – template syntax: literals, escapes, quotes and nesting parse as documented.
 
@@ -117,6 +119,60 @@ theorem print_compile (reg : Registry) (fn : List Char → List Bytes → Bytes)
     ∃ stages, compile reg opt (printTop σ e) = .ok (stages, []) ∧
       ∀ ctx, (buildKey stages).run ctx = .ok (evalTree (envOf ctx fn) e) :=
   printTop_ok reg fn opt σ e ha hreg
+
+/-- **The round trip for a general registry hypothesis** (`RegDen`, `Rare/Proofs/C09Den.lean`): the builder of
+    every function called in the tree is correct *at its call site* – for argument stages that denote the
+    argument trees (`Den`: same value in every context, a literal argument is the constant stage, an argument
+    the certificate `D` calls dynamic is not constant under the probe) it returns, without compile error, a
+    stage denoting the call.  So a builder may demand constant arguments, type-check constant arguments at
+    compile time, or fold constants; and the meaning `sem` of a name may depend on the context beyond the
+    argument values (user-defined functions: C10).  `print_compile` is the special case of `Implements`
+    builders. -/
+theorem print_compile_general (reg : Registry) (sem : Sem) (D : C09.Expr → Bool) (hD : ∀ s, D (.lit s) = false)
+    (opt : Bool) (σ : Style) (e : C09.Expr) (ha : AdmissibleTop e) (hreg : RegDen reg sem D e) :
+    ∃ stages, compile reg opt (printTop σ e) = .ok (stages, []) ∧
+      ∀ ctx, (buildKey stages).run ctx = .ok (evalTree (envC sem ctx) e) :=
+  printTop_den reg sem D opt hD σ e ha hreg
+
+/-- **The round trip over a fragment of the STANDARD function table.**  For every tree whose calls are call
+    sites of the fragment (`fragOk`: a name of `fragNames` at an admissible arity; where the Go builder
+    inspects an argument at compile time, an integer- or float-typed position holds a dynamic expression or
+    something evaluating to a number, a constant position holds a literal of the right type –
+    `Rare/Spec/C09Frag.lean`), printed with ANY admissible style, the standard registry (whatever other names
+    the Go side knows) compiles the print without errors, optimiser on or off, and the compiled expression
+    evaluates in every context to the tree's denotation under `stdSem`.
+
+    The fragment: the logic helpers (`coalesce eq neq not and or if unless switch` – lazy ones included), the
+    integer folds (`sumi subi multi divi modi maxi mini`, any arity ≥ 2, nested arbitrarily), `isint`,
+    `bucket bucketrange clamp expbucket`, the float comparisons and folds (`lt gt lte gte sumf subf multf divf`
+    on the binary64 model), `isnum ceil floor sqrt hf`, the string helpers (`len like prefix suffix substr
+    select tab $ @ csv hi`), the path helpers and `@len @split @join @in` – `fragment_names`.  Outside: helpers
+    that evaluate an argument in a sub-context (`@map @filter @reduce @for`; user functions are C10's
+    `call_nested_eq_body`), `upper`/`lower` (the model covers ASCII only), the libm-backed and time helpers. -/
+theorem print_compile_std_fragment (known : List String) (opt : Bool) (σ : Style) (e : C09.Expr)
+    (ha : AdmissibleTop e) (hf : fragOk e = true) :
+    ∃ stages, compile (stdRegistry known) opt (printTop σ e) = .ok (stages, []) ∧
+      ∀ ctx, (buildKey stages).run ctx = .ok (evalTree (envOf ctx stdSem) e) :=
+  printTop_std_fragment known opt σ e ha hf
+
+/-- The fragment, by name (52 of the names of the real function table, `Gen.stdFunctionNames`, regenerated
+    from `/repo` on every run; each entry's builder is literally the one the model's standard registry has
+    under that name – `fragTable_ok`). -/
+theorem fragment_names :
+    fragNames = ["coalesce", "eq", "neq", "not", "and", "or", "if", "unless", "switch",
+      "sumi", "subi", "multi", "divi", "modi", "maxi", "mini", "isint", "bucket", "bucketrange", "clamp", "expbucket",
+      "isnum", "lt", "gt", "lte", "gte", "sumf", "subf", "multf", "divf", "ceil", "floor", "sqrt", "hf",
+      "len", "like", "prefix", "suffix", "substr", "select", "tab", "$", "@", "csv", "hi",
+      "basename", "dirname", "extname", "@len", "@split", "@join", "@in"] ∧
+    (∀ n ∈ fragNames, n ∈ Gen.stdFunctionNames) ∧
+    (∀ p ∈ fragTable, lookupTable stdTable p.1 = some p.2.builder) := by
+  have h : fragNames = ["coalesce", "eq", "neq", "not", "and", "or", "if", "unless", "switch",
+      "sumi", "subi", "multi", "divi", "modi", "maxi", "mini", "isint", "bucket", "bucketrange", "clamp", "expbucket",
+      "isnum", "lt", "gt", "lte", "gte", "sumf", "subf", "multf", "divf", "ceil", "floor", "sqrt", "hf",
+      "len", "like", "prefix", "suffix", "substr", "select", "tab", "$", "@", "csv", "hi",
+      "basename", "dirname", "extname", "@len", "@split", "@join", "@in"] := rfl
+  refine ⟨h, ?_, fun p hp => (fragTable_ok p hp).2⟩
+  rw [h]; decide
 
 /-- The round trip for registries of syntactically pure builders (`pureBuilder`, the harness's probe
     registry) with the optimiser off – the statement proved before the composition with C10; now a
@@ -285,6 +341,26 @@ example (known : List String) : AdmissibleTop stdTree ∧ RegSem (stdRegistry kn
 
 example : RegSem sampleReg sampleFn sampleTree :=
   regSem_of_regOk _ _ _ (by simp [sampleTree, RegOk, RegOkArgs, sampleReg, pureRegistry])
+
+/-- `{if {lt {0} 10} {bucket {sumi {multi {0} 2} {len {src}} 7} 5} {substr {k} 0 3}}`: a lazy helper, a float
+    comparison of a group with a constant, an integer fold whose arguments are a nested fold, a call and a
+    constant, a bucket with a constant size, `substr` with constant indices – a call site of the fragment at
+    every node (so `print_compile_std_fragment` applies, any style, optimiser on or off). -/
+def fragTree : C09.Expr :=
+  .call "if".toList [.call "lt".toList [.group 0, .lit "10".toList],
+    .call "bucket".toList [.call "sumi".toList [.call "multi".toList [.group 0, .lit "2".toList],
+      .call "len".toList [.key "src".toList], .lit "7".toList], .lit "5".toList],
+    .call "substr".toList [.key "k".toList, .lit "0".toList, .lit "3".toList]]
+
+example : fragOk fragTree = true ∧ AdmissibleTop fragTree :=
+  ⟨by decide +kernel, by simp only [AdmissibleTop, fragTree, Admissible, AdmissibleArgs]; decide⟩
+
+/-- …and what the fragment excludes: a constant that is not an integer in an integer position (`{sumi abc 1}`
+    is a compile error in rare), a non-constant bucket size. -/
+example : fragOk (.call "sumi".toList [.lit "abc".toList, .lit "1".toList]) = false ∧
+    fragOk (.call "bucket".toList [.group 0, .group 1]) = false := ⟨by decide +kernel, by decide +kernel⟩
+
+example : RegDen (stdRegistry []) (fun _ => stdSem) dynE fragTree := regDen_of_fragOk [] fragTree (by decide +kernel)
 
 /-- "aé€😀": 1-, 2-, 3- and 4-byte sequences. -/
 example : wellFormed [0x61, 0xC3, 0xA9, 0xE2, 0x82, 0xAC, 0xF0, 0x9F, 0x98, 0x80] = true := by decide
